@@ -435,6 +435,13 @@ func (w *svcWorld) exactlyOnce() (string, string) {
 			seen := map[[2]string]int{}
 			for pi, ids := range remoteIDs(remote) {
 				var last uint64
+				if len(ids) > 0 && sseqOf[ids[0]] == 1 {
+					// the pack starts at the first operation of the log: a subscribe response. The
+					// client resets its state and takes the log from the start, so operations of an
+					// earlier subscription (a duplicated entry request, both responses applied)
+					// legitimately come again.
+					seen = map[[2]string]int{}
+				}
 				for _, id := range ids {
 					if id[0] == cl.Model.CUID {
 						return "own-op-applied-as-remote", fmt.Sprintf("%s/%s: its own operation seq %s was delivered back to it as a remote operation", cl.Alias, d.Key, id[1])
